@@ -12,6 +12,8 @@ import (
 type PathCond struct {
 	V     ssa.Value
 	Truth bool
+	// for comparisons: the operands with phis resolved along the path the condition was recorded on
+	X, Y ssa.Value
 }
 
 type CFGPath struct {
@@ -81,7 +83,11 @@ func PathsTo(fn *ssa.Function, target *ssa.BasicBlock) (paths []CFGPath, ok bool
 					dfs(s)
 					continue
 				}
-				conds = append(conds, PathCond{cond, i == 0})
+				pc := PathCond{V: cond, Truth: i == 0}
+				if bo, isB := cond.(*ssa.BinOp); isB {
+					pc.X, pc.Y = resolvePhiOnPath(bo.X, blocks), resolvePhiOnPath(bo.Y, blocks)
+				}
+				conds = append(conds, pc)
 				dfs(s)
 				conds = conds[:len(conds)-1]
 			}
@@ -116,6 +122,11 @@ func Feasible(conds []PathCond) bool {
 		cm, ok := CmpOf(pc.V, pc.Truth)
 		if !ok {
 			continue
+		}
+		if pc.X != nil && pc.Y != nil {
+			if _, direct := pc.V.(*ssa.BinOp); direct {
+				cm.X, cm.Y = pc.X, pc.Y
+			}
 		}
 		k := key{id(cm.X), id(cm.Y)}
 		op := cm.Op
@@ -190,4 +201,36 @@ func resolvePhiOnPath(v ssa.Value, blocks []*ssa.BasicBlock) ssa.Value {
 		}
 	}
 	return v
+}
+
+// MustPassRefined: path-sensitive refinement of MustPass for one return. It enumerates the feasible
+// acyclic paths to ret (an M-free path with a repeated block implies an M-free acyclic one) and
+// reports whether some feasible path reaches ret without executing an instruction selected by isM.
+// undecided=true if the path bound was exceeded.
+func MustPassRefined(fn *ssa.Function, isM func(ssa.Instruction) bool, ret *ssa.Return) (missing bool, undecided bool) {
+	hasM := map[*ssa.BasicBlock]bool{}
+	for _, b := range fn.Blocks {
+		for _, in := range b.Instrs {
+			if isM(in) {
+				hasM[b] = true
+			}
+		}
+	}
+	paths, ok := PathsTo(fn, ret.Block())
+	if !ok {
+		return true, true
+	}
+	for _, p := range paths {
+		passes := false
+		for _, b := range p.Blocks {
+			if hasM[b] {
+				passes = true
+				break
+			}
+		}
+		if !passes {
+			return true, false
+		}
+	}
+	return false, false
 }
